@@ -129,7 +129,10 @@ macro_rules! impl_numeric_cast {
 
         // cast for string type
         impl Cast<String> for $T {
-            #[inline] fn cast(self) -> String { self.to_string() }
+            // a null number is the null string, like None
+            #[inline] fn cast(self) -> String {
+                if self.is_none() { <String as IsNone>::none() } else { self.to_string() }
+            }
         }
 
         impl Cast<String> for Option<$T> {
